@@ -43,17 +43,22 @@ Record MidQ (s0 X : st) (added : list char) (tn : list tok) (en : list err_info)
   mq_lines : lines_pos X
 }.
 
-Lemma MidQ_adv s0 X ad tn en x r : MidQ s0 X ad tn en (x :: r) -> MidQ s0 (st_adv X x r) ad tn en r.
+Lemma MidQ_adv s0 X ad tn en x r : (x =? NL) = false -> MidQ s0 X ad tn en (x :: r) -> MidQ s0 (st_adv X x r) ad tn en r.
 Proof.
-  intros [C L1 L2 T E R M L]. constructor; try assumption; try reflexivity.
-  change (c_rem (s_cur X) - utf8_len x = blen r). rewrite M. cbn [blen]. lia.
+  intros Hx [C L1 L2 T E R M L]. constructor; try assumption; try reflexivity.
+  - change (c_rem (s_cur X) - utf8_len x = blen r). rewrite M. cbn [blen]. lia.
+  - apply lines_pos_adv; assumption.
 Qed.
 
-Lemma MidQ_add_line s0 X ad tn en rr : MidQ s0 X ad tn en rr -> MidQ s0 (st_add_line X) ad tn en rr.
-Proof. intros [C L1 L2 T E R M L]. constructor; try assumption. apply lines_pos_add_line. exact L. Qed.
+Lemma MidQ_nl s0 X ad tn en x r : (x =? NL) = true -> MidQ s0 X ad tn en (x :: r) -> MidQ s0 (st_add_line (st_adv X x r)) ad tn en r.
+Proof.
+  intros Hx [C L1 L2 T E R M L]. constructor; try assumption; try reflexivity.
+  - change (c_rem (s_cur X) - utf8_len x = blen r). rewrite M. cbn [blen]. lia.
+  - apply lines_pos_nl; assumption.
+Qed.
 
 Lemma MidQ_ws1 s0 X ad tn en x r : MidQ s0 X ad tn en (x :: r) -> MidQ s0 (ws1 X x r) ad tn en r.
-Proof. intros H. unfold ws1. destruct (x =? NL); [apply MidQ_add_line|]; apply MidQ_adv; exact H. Qed.
+Proof. intros H. unfold ws1. destruct (x =? NL) eqn:Ex; [apply MidQ_nl|apply MidQ_adv]; assumption. Qed.
 
 Lemma MidQ_cur_byte s0 X ad tn en rr : MidQ s0 X ad tn en rr -> cur_byte X = s_srclen s0 - blen rr.
 Proof.
@@ -169,9 +174,9 @@ Proof.
     destruct f as [|f]; [cbn in Hf; lia|]. cbn [List.length] in Hm, Hf.
     cbv zeta. cbn [st_sq squote_loop]. unfold advance, advance_, get, when, add_line, ret. cbn [bindP do run].
     rewrite (ex_advance X x r (mq_rest _ _ _ _ _ _ HM)). cbn [run].
-    pose proof (MidQ_adv _ _ _ _ _ _ _ HM) as HM1.
     destruct (x =? c_squote) eqn:Ex.
-    + cbn [bindP do run]. rewrite ex_get. cbn [run]. rewrite peek_is_scrub. unfold peek_is, peek.
+    + pose proof (MidQ_adv _ _ _ _ _ _ _ (eq_not_nl x c_squote Ex eq_refl) HM) as HM1.
+      cbn [bindP do run]. rewrite ex_get. cbn [run]. rewrite peek_is_scrub. unfold peek_is, peek.
       change (c_rest (s_cur (st_adv X x r))) with r.
       destruct r as [|y r'].
       * cbn [q_closed q_st q_ad q_P q_k q_pend run]. replace (k + 1 - k) with 1 by lia. cbn [N.to_nat Pos.to_nat Pos.iter_op skipn_N].
@@ -189,7 +194,7 @@ Proof.
            pose proof (MidQ_addlit _ _ _ _ _ _ (pend ++ [c_squote]) HM1) as HM2.
            set (X2 := st_addlit X1 (pend ++ [c_squote])) in *.
            rewrite (ex_advance X2 y r' (mq_rest _ _ _ _ _ _ HM2)). cbn [run]. rewrite ex_get. cbn [run].
-           pose proof (MidQ_adv _ _ _ _ _ _ _ HM2) as HM3. set (X3 := st_adv X2 y r') in *.
+           pose proof (MidQ_adv _ _ _ _ _ _ _ (eq_not_nl y c_squote Ey eq_refl) HM2) as HM3. set (X3 := st_adv X2 y r') in *.
            apply N.eqb_eq in Ey. subst y.
            assert (Hsrc3 : s_src s0 = (P ++ pend ++ [c_squote; c_squote]) ++ [] ++ r').
            { rewrite Hsrc. rewrite <- !app_assoc. reflexivity. }
@@ -305,20 +310,27 @@ Proof.
   reflexivity.
 Qed.
 
+Lemma is_cc_not_nl a b c : is_cc a b c = true -> (a =? NL) = false -> (b =? NL) = false -> (c =? NL) = false.
+Proof.
+  unfold is_cc. intros H Ha Hb. apply orb_true_iff in H. destruct H as [H|H]; apply N.eqb_eq in H; subst c; assumption.
+Qed.
+
+Ltac cc_adv := apply MidQ_adv; [eapply is_cc_not_nl; [eassumption|reflexivity|reflexivity]|].
+
 Lemma MidQ_suffix s0 X ad tn en l : MidQ s0 X ad tn en l ->
   MidQ s0 (st_suffix X l) ad tn en (skipn_N (N.to_nat (snd (suffix_model l))) l).
 Proof.
   intros HM. unfold st_suffix, suffix_model. destruct l as [|c r]; [exact HM|].
-  destruct (is_cc 98 66 c); [apply MidQ_adv; exact HM|].
-  destruct (is_cc 100 68 c).
+  destruct (is_cc 98 66 c) eqn:E1; [cc_adv; exact HM|].
+  destruct (is_cc 100 68 c) eqn:E2.
   { destruct r as [|t r'].
-    - change (is_cc 116 84 EOF_CHAR) with false. cbv iota. apply MidQ_adv. exact HM.
-    - destruct (is_cc 116 84 t); cbn [snd N.to_nat Pos.to_nat Pos.iter_op skipn_N].
-      + apply MidQ_adv. apply MidQ_adv. exact HM.
-      + apply MidQ_adv. exact HM. }
-  destruct (is_cc 110 78 c); [apply MidQ_adv; exact HM|].
-  destruct (is_cc 116 84 c); [apply MidQ_adv; exact HM|].
-  destruct (is_cc 120 88 c); [apply MidQ_adv; exact HM|].
+    - change (is_cc 116 84 EOF_CHAR) with false. cbv iota. cc_adv. exact HM.
+    - destruct (is_cc 116 84 t) eqn:E3; cbn [snd N.to_nat Pos.to_nat Pos.iter_op skipn_N].
+      + cc_adv. cc_adv. exact HM.
+      + cc_adv. exact HM. }
+  destruct (is_cc 110 78 c) eqn:E4; [cc_adv; exact HM|].
+  destruct (is_cc 116 84 c) eqn:E5; [cc_adv; exact HM|].
+  destruct (is_cc 120 88 c) eqn:E6; [cc_adv; exact HM|].
   exact HM.
 Qed.
 
@@ -349,7 +361,7 @@ Section Str.
     intros HOC. constructor; try reflexivity.
     - cbn [blen]. rewrite N.add_0_r. reflexivity.
     - destruct (ip_cur _ _ (oc_inv _ _ _ HOC)) as (pre & _ & _ & R). exact R.
-    - exact (oc_lines _ _ _ HOC).
+    - apply lines_pos_start. exact (oc_lines _ _ _ HOC).
   Qed.
 
   (** a default-channel token whose scan may have appended to the literal buffer, then errors *)
@@ -382,7 +394,7 @@ Section Str.
         change (w_litlen (s_buf Xs) = rs_litlen rs + blen added).
         rewrite (mq_litlen _ _ _ _ _ _ HM). change (w_litlen (s_buf (st_start s))) with (w_litlen (s_buf s)).
         rewrite (oc_litlen _ _ _ HOC). reflexivity.
-      + destruct (mq_lines _ _ _ _ _ _ HM) as [q Hq]. exists q. change (w_nlines (s_buf E) = N.pos q). rewrite (ne_buf _ _ Ne). exact Hq.
+      + apply lines_pos_pend. unfold E. apply lines_pos_emit_errs, lines_pos_emit. exact (mq_lines _ _ _ _ _ _ HM).
     - change (c_rest (s_cur E) = skipn_N (N.to_nat n) (c_rest (s_cur s))). rewrite (ne_cur _ _ Ne). exact (mq_rest _ _ _ _ _ _ HM).
     - change (map (tv bb) (w_toks (s_buf E)) = rev (map rv [mkRtok ty CH_DEFAULT (cur_byte s + bb) pl]) ++ map (tv bb) (w_toks (s_buf s))).
       rewrite (ne_buf _ _ Ne).
@@ -478,7 +490,7 @@ Section Str.
     assert (Hcb : cur_byte s = blen pre).
     { pose proof (cur_byte_rest text s (oc_inv _ _ _ HOC)) as B. rewrite Hr in B. pose proof (f_equal blen Epre) as E. rewrite blen_app in E. lia. }
     pose proof (MidQ_init s rs HOC) as M0. rewrite Hr in M0. fold s0 in M0.
-    pose proof (MidQ_adv _ _ _ _ _ _ _ M0) as Ma. fold Xa in Ma.
+    pose proof (MidQ_adv _ _ _ _ _ _ _ (eq_refl : (c_squote =? NL) = false) M0) as Ma. fold Xa in Ma.
     exists pre. split; [exact Epre|]. split; [exact Hsrc0|]. split; [exact Hlen0|]. split; [exact Hcb|]. split; [exact Ma|].
     assert (Hsrc : s_src s0 = (pre ++ [c_squote]) ++ [] ++ r) by (rewrite Hsrc0, Epre, <- app_assoc; reflexivity).
     assert (Hcba : cur_byte Xa = blen (pre ++ [c_squote])).
